@@ -157,7 +157,8 @@ func (o *Object) Write(rootGoitPath string) error {
 	}
 	// write to a temporary file and rename it into place:
 	// the object appears under its id only when it is complete
-	tmpPath := filepath.Join(rootGoitPath, "object.tmp")
+	// (the name is the process's own: two commands running at the same time must not share it)
+	tmpPath := filepath.Join(rootGoitPath, fmt.Sprintf("object.%d.tmp", os.Getpid()))
 	f, err := os.Create(tmpPath)
 	if err != nil {
 		return fmt.Errorf("%w: %s", ErrIOHandling, tmpPath)
